@@ -203,6 +203,17 @@ class Inventory:
             recv = origin_desc(args[0])
             if len(args) > 1:
                 idx = args[1]
+                # a coordinate of a fixed-size nalgebra point / vector (dimension in the type), selected by an index that only takes constant values below it
+                dim = None
+                tcall = site.get("term") or {}
+                gtys = (callee_of(tcall) or {}).get("g") or []
+                m_ = re.match(r"^nalgebra::(?:OPoint<[^,]+, nalgebra::Const<(\d+)>>|Matrix<[^,]+, nalgebra::Const<(\d+)>, nalgebra::Const<1>,)", gtys[0]) if gtys else None
+                if m_:
+                    dim = int(m_.group(1) or m_.group(2))
+                if dim is not None:
+                    vals = self.const_values(sc, fn, idx, 0)
+                    if vals is not None and vals and all(0 <= v < dim for v in vals):
+                        return self.g(site, "component %s of a %d-dimensional point/vector" % (sorted(vals), dim))
                 if idx[0] == "k" and self.len_guard(cdescs, recv, int(idx[1]) + 1 if idx[1].isdigit() else 1):
                     return self.g(site, "constant index under a dominating length test of %s" % recv)
                 if self.index_in_range(sc, body, idx, recv, cdescs):
@@ -384,6 +395,56 @@ class Inventory:
                 if tk.isdigit() and int(tk) >= need:
                     return True
         return False
+
+    def const_values(self, sc, fn, node, depth):
+        """the set of integer constants the node can take: a literal; a local all of whose definitions are such; a parameter of a private function for which
+        every call site passes such a value; a captured variable of the enclosing function.  None when not all values are constants"""
+        n = strip(node)
+        if depth > 4:
+            return None
+        if n[0] == "k":
+            return {int(n[1])} if re.match(r"^-?\d+$", n[1]) else None
+        if n[0] == "cast":
+            return self.const_values(sc, fn, n[1], depth + 1)
+        if n[0] == "var":
+            owner = sc
+            while owner is not None and not (isinstance(n[1], int) and n[1] < len(owner.body.locals) and owner.body.names.get(n[1]) == n[2]):
+                owner = owner.parent
+            if owner is None:
+                return None
+            out = set()
+            defs = owner.body.defs().get(n[1], [])
+            if not defs:
+                return None
+            for d in defs:
+                if d[0] != "st":
+                    return None
+                v = self.const_values(owner, owner.fn, owner.rvalue(d[3]["rv"]), depth + 1)
+                if v is None:
+                    return None
+                out |= v
+            return out
+        if n[0] == "arg":
+            root = self.prog.root_of(fn)
+            if root.id != fn.id or root.raw.get("pub"):
+                return None
+            out = set()
+            callers = []
+            for f2 in self.prog.fns.values():
+                for b, t in f2.body.calls():
+                    c = callee_of(t)
+                    if c and (c.get("rid") or c["id"]) == fn.id:
+                        callers.append((f2, b, t))
+            if not callers:
+                return None
+            for (f2, b, t) in callers:
+                sc2 = self.scope_for(f2)
+                v = self.const_values(sc2, f2, sc2.operand(t["args"][n[1] - 1]), depth + 1)
+                if v is None:
+                    return None
+                out |= v
+            return out
+        return None
 
     def param_len_guard(self, fn, coll_node, need, depth=0):
         """the collection is a parameter of a private function and every call site passes a collection that is length-guarded there (>= need elements)"""
